@@ -7,6 +7,7 @@ import re
 from engine import kinds
 from engine.facts import Site, Slicer, norm, operand_local, control_deps, last_field
 from engine.slicing import FlowSlicer, expand_closure_labels
+from engine.lin import Lin
 from rules.c18 import _calls_on_field
 
 CRATES = {"shuttle_engine", "shuttle_schedulers"}
@@ -103,6 +104,29 @@ def r3_change_points(ctx):
     ctx.ob("C11.R3", "sampled-from-own-rng", ("field:" + P + "PctScheduler.rng") in rng, "change points are sampled from the scheduler's seeded rng", loc=b.loc(s))
     ok = ("field:" + P + "PctScheduler.max_depth") in amt and any(l.endswith("cmp::min") for l in amt) and "const:1" in amt
     ctx.ob("C11.R3", "count-bounded-by-depth", ok, "the number of change points is min(max_depth - 1, max_steps - 1)", loc=b.loc(s))
+    # linear form of the count: the sample's amount is (a copy of) min(x, y) where one of x, y is max_depth - c, c >= 1
+    lin = Lin(b)
+    bound = None
+    l = operand_local(t["args"][2])
+    seen = 0
+    while l is not None and seen < 6:
+        seen += 1
+        ds = lin.defs.get(l, [])
+        if len(ds) != 1:
+            break
+        st = ds[0]
+        if st.get("k") == "call" and any(c.endswith("cmp::min") for c in b.callees_of_call(st, passed=False)):
+            forms = [lin.op(a) for a in st["args"]]
+            for f in forms:
+                if f is not None and f.get("F:" + P + "PctScheduler.max_depth") == 1 and set(f) <= {"F:" + P + "PctScheduler.max_depth", "const"}:
+                    bound = f.get("const", 0)
+            break
+        if st.get("k") == "assign" and st["rv"]["k"] in ("use", "cast"):
+            l = operand_local(st["rv"]["ops"][0])
+        else:
+            break
+    ctx.ob("C11.R3", "count-at-most-depth-minus-1", bound is not None and bound <= -1,
+           "one operand of that min is max_depth - c with c >= 1 (at most depth-1 change points): constant term %s" % bound, loc=b.loc(s))
     cw = [x for x in b.sites() if b.at(x).get("k") in ("assign", "call") and last_field(b.at(x).get("dst", {"l": 0})) == P + "PctScheduler.change_points"]
     okw = False
     for x in cw:
